@@ -79,6 +79,7 @@ package pkce
 //@   ensures [C03.refusal-class] canhandle && err != nil && faults == old(faults) ==> ekind(err) == "invalid_grant" || ekind(err) == "invalid_request"
 
 //@ func (*Handler).HandleAuthorizeEndpointRequest
+//@   modifies anyheap
 //@   let challenge = formget(old(ar.GetRequestForm()), "code_challenge")
 //@   let method = formget(old(ar.GetRequestForm()), "code_challenge_method")
 //@   let sig = c.AuthorizeCodeStrategy.AuthorizeCodeSignature(ctx, resp.GetCode())
